@@ -52,6 +52,8 @@ def new_grid(auto=False, v2=False):
     import hszinc
     if v2:
         g = hszinc.Grid(version='2.0')
+    elif auto == 'plain':
+        g = hszinc.Grid()       # no declared version, still 2.0
     elif auto:
         # no declared version: a 3.0-only value in a row promotes the grid to 3.0, and slices must carry that
         g = hszinc.Grid()
@@ -179,6 +181,8 @@ class Hist(object):
                 self.l = l[_sl(op[1])]
             real, model = both(rs, mslice)
             self.flags.add('derived')
+            # a derived grid carries the version of its source as an explicit label
+            self.v2 = str(self.g.version).startswith(('2', '1'))
         elif kind == 'filter':
             def rf():
                 f = g.filter(op[1])
@@ -188,6 +192,7 @@ class Hist(object):
                 self.l = [r for r in l if 'v' in r]
             real, model = both(rf, mf)
             self.flags.add('derived')
+            self.v2 = str(self.g.version).startswith(('2', '1'))
         else:
             raise ValueError(op)
         if real[0] != model[0] or (real[0] == 'raises' and real[1] != model[1]) or (real[0] == 'ok' and real[1] != model[1]):
@@ -356,5 +361,5 @@ def history_strategy(mode):
                 st.tuples(st.lists(t, max_size=2), bad).map(lambda p: ['extend', p[0] + [p[1]]])]
     if mode in ('id', 'both'):
         ops += [st.just(['filter', 'v'])]
-    return st.fixed_dictionaries({'initial': st.lists(t, max_size=4), 'auto': st.booleans(), 'v2': st.booleans(),
+    return st.fixed_dictionaries({'initial': st.lists(t, max_size=4), 'auto': st.sampled_from([False, True, 'plain']), 'v2': st.booleans(),
                                   'ops': st.lists(st.one_of(*ops), min_size=1, max_size=50)})
